@@ -13,7 +13,7 @@ import (
 func init() {
 	register(Property{
 		ID: "C16",
-		Explanation: "Decided statically on constants and literals (the sample generators never run in the test-suite): T1 every placeholder of every constant template of the runtimedoc generator is bound and every Sprintf format uses only %v/%T/%% with enough operands (an unbound placeholder is a guaranteed panic the first time that arm runs); T2 every template, with its placeholders replaced by a stub of the kind its binding constructs, parses as Go in one of four syntactic contexts, and the constant helper block parses as declarations; T3 doc text reaches the generated code only as a quoted value literal (Value/%v) or behind Comment, never through ID (a reference parser), Block or a format position; R1 the 'cases' loop emits a case exactly for exported, non-embedded fields (skipping anonymous/empty structs) and the 'embeds' loop a delegation exactly for embedded fields, choosing v.F / &v.F by pointer-ness, both over the same NumFields() range; R2 the helper is emitted under an instance flag that is tested and set before rendering, and only from a Defer callback registered when something was rendered; R3 Context.Doc removes the leading type name from the first doc line and drops the line when it becomes empty; U1 field-type assertions look through aliases. NOT decided: that the generated code compiles with the package and that RuntimeDoc returns the expected lines at run time (needs compilation and execution of generated code).",
+		Explanation: "Decided statically on constants and literals (the sample generators never run in the test-suite): T1 every placeholder of every constant template of the runtimedoc generator is bound and every Sprintf format uses only %v/%T/%% with enough operands (an unbound placeholder is a guaranteed panic the first time that arm runs); T2 every template, with its placeholders replaced by a stub of the kind its binding constructs, parses as Go in one of four syntactic contexts, and the constant helper block parses as declarations; T3 doc text reaches the generated code only as a quoted value literal (Value/%v) or behind Comment, never through ID (a reference parser), Block or a format position; R1 the 'cases' loop emits a case exactly for exported, non-embedded fields (skipping anonymous/empty structs) and the 'embeds' loop a delegation exactly for embedded fields, choosing v.F / &v.F by pointer-ness, both over the same NumFields() range; R2 the helper is emitted under an instance flag that is tested and set before rendering, and only from a Defer callback registered when something was rendered; R3 Context.Doc removes the leading type name from the first doc line and drops the line when it becomes empty; U1 field-type assertions look through aliases. R4 no schedule-dependent order source in the generator. NOT decided: that the generated code compiles with the package and that RuntimeDoc returns the expected lines at run time (needs compilation and execution of generated code).",
 		Assumptions: commonAssumptions,
 		Run:         runC16,
 	})
